@@ -43,15 +43,33 @@ type Cfg struct {
 	VRem   uint64   `json:"vrem"`
 	PMul   int      `json:"pmul"`
 	Tbl    []int    `json:"tbl"`
+	// validator set of the odd heights, when not empty (sets that change from height to height)
+	AltPowers []uint64 `json:"alt_powers,omitempty"`
+	AltTotal  uint64   `json:"alt_total,omitempty"`
 }
 
-func (c *Cfg) TotalVotingPower(types.Height) types.VotingPower { return types.VotingPower(c.Total) }
+func (c *Cfg) useAlt(h uint64) bool { return len(c.AltPowers) > 0 && h%2 == 1 }
+
+func (c *Cfg) total(h uint64) uint64 {
+	if c.useAlt(h) {
+		return c.AltTotal
+	}
+	return c.Total
+}
+
+func (c *Cfg) TotalVotingPower(h types.Height) types.VotingPower {
+	return types.VotingPower(c.total(uint64(h)))
+}
 
 func (c *Cfg) power(h uint64, i int) uint64 {
-	if i < 0 || i >= len(c.Powers) {
+	ps := c.Powers
+	if c.useAlt(h) {
+		ps = c.AltPowers
+	}
+	if i < 0 || i >= len(ps) {
 		return 0
 	}
-	return c.Powers[(uint64(i)+uint64(c.Rot)*h)%uint64(len(c.Powers))]
+	return ps[(uint64(i)+uint64(c.Rot)*h)%uint64(len(ps))]
 }
 
 func (c *Cfg) ValidatorVotingPower(h types.Height, a *Adr) types.VotingPower {
@@ -129,8 +147,8 @@ func joinI(xs []int) string {
 }
 
 func newLine(mid int, cfg *Cfg, ns NodeSpec) string {
-	return fmt.Sprintf("new %d %d %d %d %d %d %d %d %d %d %s %s", mid, ns.Node, ns.Height, cfg.Total, cfg.Rot,
-		cfg.VMod, cfg.VRem, ns.VBase, ns.VStep, cfg.PMul, joinU(cfg.Powers), joinI(cfg.Tbl))
+	return fmt.Sprintf("new %d %d %d %d %d %d %d %d %d %d %s %s %d %s", mid, ns.Node, ns.Height, cfg.Total, cfg.Rot,
+		cfg.VMod, cfg.VRem, ns.VBase, ns.VStep, cfg.PMul, joinU(cfg.Powers), joinI(cfg.Tbl), cfg.AltTotal, joinU(cfg.AltPowers))
 }
 
 // ---- inputs -------------------------------------------------------------------------------
@@ -145,6 +163,8 @@ type In struct {
 	Value  uint64 `json:"v,omitempty"`
 	Nil    bool   `json:"nil,omitempty"`
 	Step   int    `json:"step,omitempty"`
+	Wal    bool   `json:"wal,omitempty"`   // deliver through ProcessWAL instead of the direct entry point
+	Votes  []In   `json:"votes,omitempty"` // precommits of a "sync" input (ProcessSync)
 }
 
 func (in In) idStr() string {
@@ -155,6 +175,19 @@ func (in In) idStr() string {
 }
 
 func (in In) Line(mid int) string {
+	if in.Wal {
+		switch in.Kind {
+		case "start":
+			return fmt.Sprintf("wal %d start %d", mid, in.H)
+		case "prop":
+			return fmt.Sprintf("wal %d prop %d %d %d %d %d", mid, in.H, in.R, in.Sender, in.VR, in.Value)
+		case "pv", "pc":
+			return fmt.Sprintf("wal %d %s %d %d %d %s", mid, in.Kind, in.H, in.R, in.Sender, in.idStr())
+		case "to":
+			return fmt.Sprintf("wal %d to %d %d %d", mid, in.Step, in.H, in.R)
+		}
+		return "bad"
+	}
 	switch in.Kind {
 	case "start":
 		return fmt.Sprintf("start %d %d", mid, in.R)
@@ -164,6 +197,12 @@ func (in In) Line(mid int) string {
 		return fmt.Sprintf("%s %d %d %d %d %s", in.Kind, mid, in.H, in.R, in.Sender, in.idStr())
 	case "to":
 		return fmt.Sprintf("to %d %d %d %d", mid, in.Step, in.H, in.R)
+	case "sync":
+		l := fmt.Sprintf("sync %d %d %d %d %d %d", mid, in.H, in.R, in.Sender, in.VR, in.Value)
+		for _, v := range in.Votes {
+			l += fmt.Sprintf(" %d %d %d %s", v.H, v.R, v.Sender, v.idStr())
+		}
+		return l
 	}
 	return "bad"
 }
@@ -180,20 +219,46 @@ func (in In) idPtr() *Hsh {
 	return &h
 }
 
-// apply feeds the input to the real state machine.
+func (in In) proposal() *types.Proposal[Val, Hsh, Adr] {
+	v := Val(in.Value)
+	return &types.Proposal[Val, Hsh, Adr]{MessageHeader: in.header(), ValidRound: types.Round(in.VR), Value: &v}
+}
+
+// apply feeds the input to the real state machine (through ProcessWAL when in.Wal is set).
 func apply(sm SM, in In) []actions.Action[Val, Hsh, Adr] {
+	if in.Wal {
+		switch in.Kind {
+		case "start":
+			h := wal.Start(in.H)
+			return sm.ProcessWAL(&h)
+		case "prop":
+			return sm.ProcessWAL((*wal.Proposal[Val, Hsh, Adr])(in.proposal()))
+		case "pv":
+			return sm.ProcessWAL(&wal.Prevote[Hsh, Adr]{MessageHeader: in.header(), ID: in.idPtr()})
+		case "pc":
+			return sm.ProcessWAL(&wal.Precommit[Hsh, Adr]{MessageHeader: in.header(), ID: in.idPtr()})
+		case "to":
+			return sm.ProcessWAL(&wal.Timeout{Step: types.Step(in.Step), Height: types.Height(in.H), Round: types.Round(in.R)})
+		}
+		panic("bad wal input kind " + in.Kind)
+	}
 	switch in.Kind {
 	case "start":
 		return sm.ProcessStart(types.Round(in.R))
 	case "prop":
-		v := Val(in.Value)
-		return sm.ProcessProposal(&types.Proposal[Val, Hsh, Adr]{MessageHeader: in.header(), ValidRound: types.Round(in.VR), Value: &v})
+		return sm.ProcessProposal(in.proposal())
 	case "pv":
 		return sm.ProcessPrevote(&types.Prevote[Hsh, Adr]{MessageHeader: in.header(), ID: in.idPtr()})
 	case "pc":
 		return sm.ProcessPrecommit(&types.Precommit[Hsh, Adr]{MessageHeader: in.header(), ID: in.idPtr()})
 	case "to":
 		return sm.ProcessTimeout(types.Timeout{Step: types.Step(in.Step), Height: types.Height(in.H), Round: types.Round(in.R)})
+	case "sync":
+		pcs := make([]types.Precommit[Hsh, Adr], len(in.Votes))
+		for i, v := range in.Votes {
+			pcs[i] = types.Precommit[Hsh, Adr]{MessageHeader: v.header(), ID: v.idPtr()}
+		}
+		return sm.ProcessSync(in.proposal(), pcs)
 	}
 	panic("bad input kind " + in.Kind)
 }
